@@ -163,9 +163,11 @@ impl Variant {
                 let int_value = self.string_value.parse::<i64>();
                 match int_value {
                     Ok(i) => i,
-                    _ => match parse_filesize(&self.string_value) {
-                        Some(size) => size as i64,
-                        _ => 0,
+                    // a size literal, with or without a sign
+                    _ => match self.string_value.strip_prefix('-') {
+                        Some(unsigned) => parse_filesize(unsigned).map_or(0, |size| -(size as i64)),
+                        None => parse_filesize(self.string_value.trim_start_matches('+'))
+                            .map_or(0, |size| size as i64),
                     },
                 }
             }
@@ -183,10 +185,17 @@ impl Variant {
                 let float_value = self.string_value.parse::<f64>();
                 match float_value {
                     Ok(f) => f,
-                    _ => match crate::util::parse_filesize_exact(&self.string_value) {
-                        Some((numerator, denominator)) => numerator as f64 / denominator as f64,
-                        _ => 0.0,
-                    },
+                    // a size literal, with or without a sign
+                    _ => {
+                        let (sign, unsigned) = match self.string_value.strip_prefix('-') {
+                            Some(unsigned) => (-1.0, unsigned),
+                            None => (1.0, self.string_value.trim_start_matches('+')),
+                        };
+                        match crate::util::parse_filesize_exact(unsigned) {
+                            Some((numerator, denominator)) => sign * (numerator as f64 / denominator as f64),
+                            _ => 0.0,
+                        }
+                    }
                 }
             }
         }
